@@ -111,6 +111,10 @@ func TestMain(m *testing.M) {
 	_ = fs.Set("alsologtostderr", "false")
 	_ = fs.Set("stderrthreshold", "FATAL")
 	klog.SetOutput(io.Discard)
+	if os.Getenv("VERIF_KLOG") != "" { // debugging aid: show what the code under test logs
+		_ = fs.Set("logtostderr", "true")
+		_ = fs.Set("v", os.Getenv("VERIF_KLOG"))
+	}
 	monitoring.SetMetricFactory(bothFactory{recorder, mprom.MetricFactory{Prefix: "verifsim_"}})
 	loadKnown()
 	if mode := os.Getenv("VERIF_CHILD"); mode != "" {
